@@ -63,7 +63,15 @@ let cl_handler (args : string list) : string =
          | (Panic, _) -> "panic" | (OutOfFuel, _) -> "outoffuel")
   | _ -> "?bad-CL"
 
+(* the serde bridge at a configuration *)
+let cser_handler (args : string list) : string =
+  match args with [t; v; c] -> Ops_serde.ser_at (cfg_of c) t v | _ -> "?bad-CSER"
+let cdes_handler (args : string list) : string =
+  match args with [t; hex; c] -> Ops_serde.de_at (cfg_of c) t hex | _ -> "?bad-CDES"
+
 let () =
+  register "CSER" cser_handler;
+  register "CDES" cdes_handler;
   register "CD" cd_handler;
   register "CT" ct_handler;
   register "CE" ce_handler;
